@@ -54,6 +54,7 @@ class Facts:
         self.term = (80, 24)
         self.cell = None
         self.ratio = 0.5
+        self.mode = None  # "DYNAMIC" / "FIXED" while an automatic cell-ratio mode is set
 
 
 def apply_env(env, facts, cols, rows, cw, ch, ratio):
@@ -64,8 +65,19 @@ def apply_env(env, facts, cols, rows, cw, ch, ratio):
     set_terminal(env, cols, rows, cw, ch)
     facts.term = (cols, rows)
     facts.cell = (cw, ch) if cw and ch else None
-    term_image.set_cell_ratio(ratio)
-    facts.ratio = ratio
+    if ratio is None:
+        ratio = facts.mode or facts.ratio  # keep the current setting
+    if isinstance(ratio, str) and facts.cell:
+        # the documented automatic modes: the ratio is the terminal's cell width / height
+        # (DYNAMIC: whenever it is needed; FIXED: as of the call -- set anew here)
+        term_image.AutoCellRatio.is_supported = None
+        term_image.set_cell_ratio(getattr(term_image.AutoCellRatio, ratio))
+        facts.mode, facts.ratio = ratio, cw / ch
+    else:
+        if isinstance(ratio, str):
+            ratio = 0.5  # (no pixel size to go by: the modes are not supported)
+        term_image.set_cell_ratio(ratio)
+        facts.mode, facts.ratio = None, ratio
 
 
 def judge_call(res, facts, family, ori, mode, value, frame, result, others, ctx):
@@ -130,7 +142,7 @@ def gen_stateless(rnd):
     cw, ch = rnd.choice([(rnd.randint(1, 40), rnd.randint(1, 40)), (8, 16), (1, 1), (rnd.randint(1, 5), rnd.randint(1, 9))])
     if rnd.random() < 0.03:
         cw = ch = 0  # the terminal reports no pixel size
-    ratio = rnd.choice([0.5, 0.5, rnd.uniform(0.05, 8.0), (cw or 1) / (ch or 2), 0.25, 1.0, 0.125 * rnd.randint(1, 40), 1 / 3])
+    ratio = rnd.choice([0.5, 0.5, rnd.uniform(0.05, 8.0), (cw or 1) / (ch or 2), 0.25, 1.0, 0.125 * rnd.randint(1, 40), 1 / 3, "DYNAMIC", "FIXED"])
     frame = rnd.choice([(0, -2), (0, 0), (logu(rnd, 1, 300), logu(rnd, 1, 100)), (-rnd.randint(0, 450), -rnd.randint(0, 150)), (rnd.randint(1, 10), -rnd.randint(0, 5))])
     mode = rnd.choice(["FIT", "FIT", "AUTO", "AUTO", "ORIGINAL", "FIT_TO_WIDTH", "width", "height"])
     case = dict(kind="stateless", family=rnd.choice(["text", "graphics"]), ori=[ow, oh], term=[cols, rows], cell=[cw, ch], ratio=ratio, frame=list(frame), mode=mode, public=rnd.random() < 0.2)
@@ -207,9 +219,9 @@ def history(case, env, res, facts):
             shadow = ("dynamic", mode)
         elif op == "resize":
             cw, ch = rnd.choice([(8, 16), (rnd.randint(1, 30), rnd.randint(1, 40))])
-            apply_env(env, facts, logu(rnd, 1, 300), logu(rnd, 1, 100), cw, ch, facts.ratio)
+            apply_env(env, facts, logu(rnd, 1, 300), logu(rnd, 1, 100), cw, ch, None)
         elif op == "ratio":
-            apply_env(env, facts, *facts.term, *(facts.cell or (0, 0)), rnd.choice([0.5, 1.0, rnd.uniform(0.1, 4)]))
+            apply_env(env, facts, *facts.term, *(facts.cell or (0, 0)), rnd.choice([0.5, 1.0, rnd.uniform(0.1, 4), "DYNAMIC", "FIXED"]))
         elif op == "render":
             # only render when it is cheap: small fixed sizes or small dynamic results
             rs = im.rendered_size
@@ -221,11 +233,11 @@ def history(case, env, res, facts):
                     real = im._render_image
                     change = rnd.choice(["resize", "resize", "ratio"])
                     new_term = (logu(rnd, 1, 300), logu(rnd, 1, 100))
-                    new_ratio = rnd.choice([0.5, 1.0, rnd.uniform(0.1, 4)])
+                    new_ratio = rnd.choice([0.5, 1.0, rnd.uniform(0.1, 4), "DYNAMIC"])
 
                     def during(*a, **k):
                         if change == "resize":
-                            apply_env(env, facts, *new_term, *(facts.cell or (0, 0)), facts.ratio)
+                            apply_env(env, facts, *new_term, *(facts.cell or (0, 0)), None)
                         else:
                             apply_env(env, facts, *facts.term, *(facts.cell or (0, 0)), new_ratio)
                         return real(*a, **k)
